@@ -1,5 +1,7 @@
 import AkVerif.Lemmas.TemplatesDenote
 import AkVerif.Lemmas.TemplatesLink
+import AkVerif.Lemmas.TemplatesLength
+import AkVerif.Lemmas.TemplatesFirstW
 /-!
 # C05 — list, map and sequence templates return exactly the denoted items
 
@@ -363,6 +365,98 @@ theorem squash_data (P : Prods) (suffix : List Name) :
        ((P.filter (squashOK suffix)).filter fun p => 1 < (p.2.filter fun r => r.length = 1).length).map (·.1)) :=
   mkSquashData_eq P suffix
 
+/-- **One entry per item / pair, whatever the length** (lists of 1000 or 5000 items are not special: the model walks the
+tail chain by structural recursion, there is no fuel and no bound). For a raw tree of a list whose derivation holds the
+item subtrees `items` (`list_derivations`), a successful clean-up returns the list `adjust o (map entry es)` where `es` are
+the cleaned items, exactly `items.length` of them; `adjust` keeps the length, or — only when the last cleaned entry is
+`None` (the two documented cases: final delimiter allowed and written as an empty last item; bracket-less list holding a
+single `None`) — drops exactly that entry. For a map with the pairs `pairs` the dict is built from exactly `pairs.length`
+cleaned (key, value) pairs and has at most that many entries (`dict_key_order`: the distinct keys). -/
+theorem one_entry_per_item (cl : Cleanuper) :
+    (∀ (o : ListOpts) (_ : o.WF) (_ : lookup cl.templates o.result = some (.list o)) (t : Val) (items : List Val)
+        (fin : Bool) (_ : ListShape o t (some (items, fin))) (fc fch : Bool) (res : El × Bool)
+        (_ : cleanup cl t fc fch = .ok res),
+      ∃ es, cleanItems cl items = .ok es ∧ es.length = items.length ∧
+        res = ((o.result, true, .list (adjust o (es.map entry))), fch) ∧
+        ((adjust o (es.map entry)).length = items.length ∨
+          ((adjust o (es.map entry)).length + 1 = items.length ∧ lastIsNone (es.map entry) = true))) ∧
+    (∀ (o : MapOpts) (_ : o.WF) (_ : lookup cl.templates o.result = some (.map o)) (t : Val)
+        (pairs : List (Val × Val)) (fin : Bool) (_ : MapShape o t (some (pairs, fin))) (fc fch : Bool) (res : El × Bool)
+        (_ : cleanup cl t fc fch = .ok res),
+      ∃ kvs d, cleanPairs cl pairs = .ok kvs ∧ kvs.length = pairs.length ∧ pyDict kvs = .ok d ∧
+        res = ((o.result, true, .dict d), fch) ∧ d.length ≤ pairs.length) :=
+  ⟨fun o wf hT _ _ _ hs fc fch res hres => list_length cl o wf hT hs fc fch res hres,
+   fun o wf hT _ _ _ hs fc fch res hres => map_length cl o wf hT hs fc fch res hres⟩
+
+/-- **Every length occurs** (the statements about "every conforming raw tree" are not vacuous for long lists): for
+`LIST = ListProds('[', 'ITEM', ',', ']')` and every `n` the raw tree of `[a, a, …, a]` with `n + 1` items (`lenTree n`: a
+tail chain `n` levels deep) conforms to the generated productions, is a list derivation with exactly these `n + 1` item
+subtrees, and its clean-up — whatever the flags — is the Python list of `n + 1` strings `'a'`. -/
+theorem any_length (n : Nat) (fc fch : Bool) :
+    conforms lenOpts.genProds (lenTree n) = true ∧
+    ListShape lenOpts (lenTree n) (some (List.replicate (n + 1) lenItem, false)) ∧
+    cleanup lenCl (lenTree n) fc fch =
+      .ok (("LIST".toList, true, .list (List.replicate (n + 1) (.str "a".toList))), fch) :=
+  ⟨lenTree_conforms n, lenTree_shape n, lenTree_clean n fc fch⟩
+
+/-- **A container that may be absent, in front of other symbols** (grammars *around* the containers). For every parser
+the constructor model returns (`constructT`: template expansion + the LL model's factorisation, nullables, FIRST, FOLLOW,
+table):
+(1) the symbol of an optional or bracket-less `ListProds` / `MapProds` and of every `ProdSequence` is a *nullable* symbol
+of the parser — the text may go on with what follows the container;
+(2) the FIRST sets the parse table is built from see through a nullable prefix of every production of the user's
+(expanded) dictionary: for `A -> pre s post` with every symbol of `pre` nullable (absent optional containers, empty
+bracket-less ones, sequences), `s` itself (a terminal) resp. every token of FIRST(`s`) is in FIRST(`A`) — however many
+non-terminals the first token of `s` comes through and wherever they stand in the dictionary. So the parents of `A` get
+the table cells for a text in which the leading containers are absent.
+Hypotheses: the iteration order handed in for `AnyTokenExcept` and the names handed to the templates contain no `__`
+(a template argument spelled like a factorisation helper, `ListProds('[', 'B__S00', …)`, is not rejected by the
+constructor — neither by the model nor by the code — and is outside this statement). -/
+theorem absent_container_first (groups : List Name) (syn : List (Name × Name)) (skip : Option (List Name))
+    (start : Name) (smart : Bool) (keep termOrder : List Name) (entries : List (Name × GramEntry)) (TP : TParser)
+    (hterms : ∀ t ∈ termOrder, LL.hasDunder t = false)
+    (hnd : ∀ C e, (C, e) ∈ entries → ∀ n ∈ e.argNames, LL.hasDunder n = false)
+    (h : constructT groups syn skip start smart keep termOrder entries = .ok TP) :
+    (∀ C a, (C, GramEntry.list a) ∈ entries → (a.optional = some true ∨ a.openBr = none) →
+        LL.parseSym C ∈ TP.ll.nullables) ∧
+    (∀ C a, (C, GramEntry.map a) ∈ entries → (a.optional = some true ∨ a.openBr = none) →
+        LL.parseSym C ∈ TP.ll.nullables) ∧
+    (∀ C args, (C, GramEntry.seq args) ∈ entries → LL.parseSym C ∈ TP.ll.nullables) ∧
+    (∀ A rules r pre s post, (A, rules) ∈ TP.ll.userProds → r ∈ rules → r.rhs = pre ++ s :: post →
+        (∀ x ∈ pre, x ∈ TP.ll.nullables) →
+        ∃ f, LL.dget A TP.ll.first = some f ∧ (s ∈ TP.ll.terminals → s ∈ f) ∧
+          (∀ g t, LL.dget s TP.ll.first = some g → t ∈ g → t ∈ f)) := by
+  have hargs := argNames_plain_of_noDunder entries hnd
+  refine ⟨?_, ?_, ?_, ?_⟩
+  · intro C a hm ho
+    rcases ho with ho | ho
+    · exact optional_list_nullable hterms h hargs C a hm ho
+    · exact bracketless_list_nullable hterms h hargs C a hm ho
+  · intro C a hm ho
+    rcases ho with ho | ho
+    · exact optional_map_nullable hterms h hargs C a hm ho
+    · exact bracketless_map_nullable hterms h hargs C a hm ho
+  · intro C args hm
+    exact seq_nullable hterms h hargs C args hm
+  · intro A rules r pre s post hm hr hrhs hpre
+    exact first_through_nullable_prefix hterms h hargs A rules r pre s post hm hr hrhs hpre
+
+/-- **… stated on the production as the user wrote it.** `(A, [… (pre…, s, post…) …])` an entry of the `productions`
+dictionary given to the constructor, every name of `pre` a nullable symbol of the constructed parser: FIRST(`A`) exists and
+contains `s` (a terminal) resp. all of FIRST(`s`). E.g. `DECL -> ATTRS BODY ';'`, `ATTRS = ListProds(…, optional=True)`:
+FIRST(`BODY`) ⊆ FIRST(`DECL`). -/
+theorem written_production_first (groups : List Name) (syn : List (Name × Name)) (skip : Option (List Name))
+    (start : Name) (smart : Bool) (keep termOrder : List Name) (entries : List (Name × GramEntry)) (TP : TParser)
+    (hterms : ∀ t ∈ termOrder, LL.hasDunder t = false)
+    (hnd : ∀ C e, (C, e) ∈ entries → ∀ n ∈ e.argNames, LL.hasDunder n = false)
+    (h : constructT groups syn skip start smart keep termOrder entries = .ok TP)
+    (A : Name) (ps : List ProdArg) (hm : (A, GramEntry.plain ps) ∈ entries) (p : List Name)
+    (hp : ProdArg.tuple p ∈ ps) (pre : List Name) (s : Name) (post : List Name) (hrhs : p = pre ++ s :: post)
+    (hpre : ∀ x ∈ pre, LL.parseSym x ∈ TP.ll.nullables) :
+    ∃ f, LL.dget (LL.parseSym A) TP.ll.first = some f ∧ (LL.parseSym s ∈ TP.ll.terminals → LL.parseSym s ∈ f) ∧
+      (∀ g t, LL.dget (LL.parseSym s) TP.ll.first = some g → t ∈ g → t ∈ f) :=
+  Templates.written_production_first hterms h (argNames_plain_of_noDunder entries hnd) A ps hm p hp pre s post hrhs hpre
+
 /-! Non-vacuity: the hypotheses hold for `LIST = ListProds('[', 'ITEM', ',', ']')`, `MAP = MapProds('{', 'WORD', ':',
 'VALUE', ',', '}')` and concrete raw trees, and the kernel evaluates the model on them. -/
 
@@ -529,5 +623,21 @@ example : cleanup exSeqCl
       .elem ("LIST".toList ++ tailSuffix) true .none, tok "]" "]"]]])) false false =
     .ok (("S".toList, true, .list [tok "WORD" "a", tok ";" ";", .elem "LIST".toList true (.list [.str "b".toList])]),
       false) := by rfl
+
+/-! `absent_container_first` / `written_production_first`: the hypotheses are satisfiable — `jsonT` above is a successful
+`constructT` whose terminal order and template arguments contain no `__`; the same for a grammar of the shape
+`E -> DECL`, `DECL -> ATTRS BODY ';'`, `ATTRS = ListProds('[', 'WORD', ',', ']', optional=True)`, `BODY -> NAME ARGS`,
+`NAME -> WORD`, `ARGS = ListProds('(', 'WORD', ',', ')', optional=True)` (its constructor run and the parse of `f ;` are
+exercised by the differential run, family f10; evaluating them in the kernel takes minutes and is left out). -/
+private def declEntries : List (Name × GramEntry) :=
+  [(nm "E", .plain [.tuple [nm "DECL"]]),
+   (nm "DECL", .plain [.tuple [nm "ATTRS", nm "BODY", nm ";"]]),
+   (nm "ATTRS", .list ⟨some (nm "["), nm "WORD", some (nm ","), some (nm "]"), none, some true⟩),
+   (nm "BODY", .plain [.tuple [nm "NAME", nm "ARGS"]]),
+   (nm "ARGS", .list ⟨some (nm "("), nm "WORD", some (nm ","), some (nm ")"), none, some true⟩),
+   (nm "NAME", .plain [.tuple [nm "WORD"]])]
+example : ∀ t ∈ jsonGroups, LL.hasDunder t = false := by decide
+example : ∀ p ∈ jsonEntries, ∀ n ∈ p.2.argNames, LL.hasDunder n = false := by decide
+example : ∀ p ∈ declEntries, ∀ n ∈ p.2.argNames, LL.hasDunder n = false := by decide
 
 end C05
